@@ -147,7 +147,13 @@ func init() {
 	bi("Quo", bin(func(in I, x, y *Term) *Term { in.bigDivCheck(y); q, _ := in.tdiv(x, y); return q }))
 	bi("Rem", bin(func(in I, x, y *Term) *Term { in.bigDivCheck(y); _, r := in.tdiv(x, y); return r }))
 	bi("Div", bin(func(in I, x, y *Term) *Term { in.bigDivCheck(y); return in.tt.IBin(OIDiv, x, y) }))
-	bi("Mod", bin(func(in I, x, y *Term) *Term { in.bigDivCheck(y); return in.tt.IBin(OIMod, x, y) }))
+	bi("Mod", bin(func(in I, x, y *Term) *Term {
+		in.bigDivCheck(y)
+		if y.op == OConst && y.ConstBig().Sign() > 0 {
+			x = in.modNormalize(x, y.ConstBig())
+		}
+		return in.tt.IBin(OIMod, x, y)
+	}))
 	bi("QuoRem", func(in *Interp, fr *frame, a []Value, _ *ssa.CallCommon) Value {
 		x, y := in.bigTerm(a[1].(*Ptr)), in.bigTerm(a[2].(*Ptr))
 		in.bigDivCheck(y)
